@@ -459,6 +459,7 @@ func init() {
 			complete := true
 			eval := func(c c12Case, nontriv bool, size int) {
 				r.Evals.Add(1)
+				r.Journal(c)
 				r.Transitions.Add(int64(len(c.Cuts) + 3))
 				r.States.Add(1)
 				ok, sig, detail := c12Eval(c)
